@@ -14,6 +14,12 @@ Decides:
       from value order);
  (R4) order restoration: execute_index_scan sorts the row positions back into table order when the
       index is not used for ORDER BY, and reverses for a DESC request only on the branch that tests it.
+ (R5) an UPDATE moves an index entry whenever the whole old key differs from the whole new key: the branch that
+      removes/inserts in update_indexes_for_update is decided by a comparison of exactly the two keys it files under;
+ (R6) IndexData::multi_lookup / prefix_multi_lookup sort the probe values before probing (callers treat the result
+      as being in key order when the index serves ORDER BY);
+ (R7) a bound of a RangePredicate never travels without its inclusiveness flag: every write to .start / .end of an
+      existing RangePredicate is accompanied, under the same conditions, by a write to .inclusive_start / .inclusive_end.
 Does NOT decide bound arithmetic (inclusive/exclusive, increments), NULL keys, cost model."""
 import re
 from ..engine.facts import callee_name
@@ -223,6 +229,121 @@ def run(ctx):
     if not okr:
         ctx.finding('R4/desc-reverse', 'execute_index_scan: the reversal for ORDER BY ... DESC is no longer confined to the branch where the '
                     'requested direction equals OrderDirection::Desc', f.loc)
+    extra_rules(ctx)
+
+
+def extra_rules(ctx):
+    from . import shared
+    prog = ctx.prog
+    # ------------------------------------------------------------------ R5 whole-key comparison on UPDATE
+    ctx.rule('C02.R5', 'update_indexes_for_update: every removal/insertion of an index entry is decided by ne(old key, new key) over exactly the '
+             'key expressions handed to the removal and to the insertion (not over a part of the key)')
+    ufs = [f for f in prog.fns.values() if f.unit == 'vibesql_storage' and not f.is_closure() and f.nice.startswith(IDX + 'index_maintenance::')
+           and f.nice.endswith('::update_indexes_for_update')]
+    ctx.require(len(ufs) == 1, 'IndexManager::update_indexes_for_update not found')
+    f = ufs[0]
+    s = Sym(f)
+    sinks = []
+    for i, t in f.calls():
+        cn = callee_name(t) or ''
+        op = cn.rsplit('::', 1)[-1].split('<')[0]
+        if ('BTreeMap' in cn and op in ('remove', 'entry', 'get_mut', 'insert')) or (cn.startswith(BTI) and 'BTreeIndex' in cn and op in ('insert', 'delete_specific', 'delete')):
+            if len(t['args']) >= 2:
+                sinks.append((i, op, s.op(t['args'][1])))
+    ctx.floor('C02.R5 index sinks in update_indexes_for_update', len(sinks), 4)
+    keys = {k for _i, _o, k in sinks if k.startswith('collect(')}
+    bad = []
+    for i, op, k in sinks:
+        if not k.startswith('collect('):
+            continue
+        conds = shared.deciding_conditions(f, i, s)
+        cmp_ok = False
+        partial = None
+        for (c, v) in conds:
+            m = re.match(r'^(ne|eq)\((.*)\)$', c)
+            if not m:
+                continue
+            args = _split_top(m.group(2))
+            if len(args) == 2 and set(args) <= keys and args[0] != args[1]:
+                cmp_ok = True
+            elif len(args) == 2 and any(k2[:40] in a for a in args for k2 in keys):
+                partial = c
+        ctx.instance(f'R5/{op}@{shared._ordinal(f, i)}', {'rule': 'C02.R5', 'sink': op, 'decided_by_whole_key_comparison': cmp_ok})
+        if not cmp_ok:
+            bad.append((op, partial))
+    if bad:
+        ctx.finding('R5/partial-key-comparison', f'update_indexes_for_update decides whether to move the index entry by `{(bad[0][1] or "no comparison of the two keys")[:140]}` '
+                    '— not by comparing the whole old key with the whole new key: a change of a later column of a composite index leaves '
+                    'the entry under the old key', f.loc)
+
+    # ------------------------------------------------------------------ R6 sorted probes
+    ctx.rule('C02.R6', 'IndexData::multi_lookup (both backends) and prefix_multi_lookup: a sort of the probe values dominates every probe / per-value scan')
+    for short in ('multi_lookup', 'prefix_multi_lookup'):
+        fs = [g_ for g_ in prog.fns.values() if g_.unit == 'vibesql_storage' and not g_.is_closure() and not is_test(g_)
+              and g_.nice.startswith(IDX) and g_.nice.endswith('::' + short) and 'IndexData' in g_.nice]
+        ctx.require(len(fs) == 1, f'IndexData::{short} not found')
+        g_ = fs[0]
+        gg = cfg(g_)
+        sorts = [i for i, t in g_.calls() if (callee_name(t) or '').rsplit('::', 1)[-1].split('<')[0] in ('sort_by', 'sort', 'sort_unstable', 'sort_unstable_by', 'sort_by_key')]
+        probes = [i for i, t in g_.calls() if ('BTreeMap' in (callee_name(t) or '') and (callee_name(t) or '').rsplit('::', 1)[-1].split('<')[0] in ('get', 'range'))
+                  or ((callee_name(t) or '').startswith(BTI) and 'BTreeIndex' in (callee_name(t) or ''))
+                  or (short == 'prefix_multi_lookup' and (callee_name(t) or '').endswith('::range_scan'))]
+        ctx.instance(f'R6/{short}', {'rule': 'C02.R6', 'sorts': len(sorts), 'probes': len(probes)})
+        ctx.require(probes, f'IndexData::{short}: probes not found')
+        if not all(any(gg.dominates(sb, pb) for sb in sorts) for pb in probes):
+            ctx.finding(f'R6/{short}/unsorted-probes', f'IndexData::{short} probes the index in the order of the IN list (no sort of the probe values '
+                        'before the lookups): the rows come back in list order, but execute_index_scan reports them as sorted by the index key', g_.loc)
+
+    # ------------------------------------------------------------------ R7 bound and inclusiveness travel together
+    ctx.rule('C02.R7', 'extract_range_predicate: every block that writes .start (.end) of an existing RangePredicate also writes '
+             '.inclusive_start (.inclusive_end) of the same value, or is dominated by / dominates a block that does under the same conditions')
+    er = ctx.fn('vibesql_executor::select::scan::index_scan::predicate::extract_range_predicate')
+    ge = cfg(er)
+    writes = {}
+    for bi, b in enumerate(er.blocks):
+        if b['t'].get('cleanup'):
+            continue
+        for st in b['s']:
+            if 'd' in st and st['d'][1] and st['d'][1][-1] in ('.start', '.end', '.inclusive_start', '.inclusive_end') and 'RangePredicate' in er.locals[st['d'][0]]:
+                writes.setdefault((st['d'][0], st['d'][1][-1]), []).append(bi)
+        t = b['t']
+        if t['k'] == 'call' and t.get('d') and t['d'][1] and t['d'][1][-1] in ('.start', '.end') and 'RangePredicate' in er.locals[t['d'][0]]:
+            writes.setdefault((t['d'][0], t['d'][1][-1]), []).append(bi)
+    n7 = 0
+    sym7 = Sym(er)
+    for (loc, fld), blocks in sorted(writes.items()):
+        if fld not in ('.start', '.end'):
+            continue
+        partner = '.inclusive_start' if fld == '.start' else '.inclusive_end'
+        for bi in blocks:
+            n7 += 1
+            c1 = shared.deciding_conditions(er, bi, sym7)
+            ok = False
+            for pb in writes.get((loc, partner), []):
+                if pb == bi or shared.deciding_conditions(er, pb, sym7) == c1:
+                    ok = True
+            ctx.instance(f'R7/{er.names.get(loc, loc)}{fld}@{n7}', {'rule': 'C02.R7', 'paired_flag_write': ok})
+            if not ok:
+                ctx.finding(f'R7/{fld[1:]}-without-flag', f'extract_range_predicate replaces the {fld[1:]} bound of a merged range without taking over '
+                            f'{partner[1:]} under the same conditions: `a < 20 AND a >= 10` scans (10, 20) instead of [10, 20)', f'{er.file}:{er.line}')
+    ctx.floor('C02.R7 bound writes on existing RangePredicate values', n7, 2)
+
+
+def _split_top(e):
+    out = []; depth = 0; cur = ''
+    i = 0
+    while i < len(e):
+        c = e[i]
+        if c == '(':
+            depth += 1
+        elif c == ')':
+            depth -= 1
+        if c == ',' and depth == 0 and e[i:i + 2] == ', ':
+            out.append(cur); cur = ''; i += 2
+            continue
+        cur += c; i += 1
+    out.append(cur)
+    return out
 
 
 def _closure_matches(c, ty):
